@@ -3,7 +3,9 @@
 Two kinds of cases (structural models, vp/gen/c15_pkgs.py):
 
 * static: 1-3 generated packages whose every module body (also stubs, source-less byte code) appends its dotted name to a
-  sentinel file; compiled-name decoys (real extension suffixes with garbage contents, valid source-less .pyc files);
+  sentinel file; compiled-name decoys (real extension suffixes with garbage contents, valid source-less .pyc files; some named after
+  modules that are already imported: json, types, io, logging, sys, os); sub-modules written in PEP 263 encodings (latin-1,
+  cp1252 with a coding cookie and non-ASCII bytes — legal Python, not UTF-8 — and UTF-8 with BOM);
   stubs (.pyi siblings, "<name>-stubs" packages); a site-style .pth file with an `import` line; packages that are only
   reachable as alias targets (one of them the private sibling "_<name>" that resolve_external=None loads), possibly only
   importable (source-less .pyc) and invisible to the finder. Loaded with allow_inspection=False, force_inspection=False
@@ -61,7 +63,7 @@ ASSUMPTIONS = [
     "exception family allowed to escape griffe.load under import faults: LoadingError, ImportError (as documented by GriffeLoader.load and dynamic_import)",
     "import-time faults are RuntimeError, SystemExit(3) and `import <missing name>`; asynchronous interrupts are not injected",
 ]
-BUDGET_S = {"quick": 75.0, "thorough": 1100.0}
+BUDGET_S = {"quick": 100.0, "thorough": 1100.0}  # ~7 s CPU per shard; the wall budget only matters on an oversubscribed machine
 SHRINK_MAX_EXAMPLES = 6000
 
 _BASE: Path | None = None
@@ -416,6 +418,11 @@ def describe(case):
     tree_layout = pkg0["layout"] in ("pkg", "ns")
     if tree_layout and _has(pkg0["top"], lambda n: n["t"] == "d"):
         classes.append(f"{kind}:has-decoy")
+        if _has(pkg0["top"], lambda n: n["t"] == "d" and G.DECOY_NAMES[n.get("name", 0) % len(G.DECOY_NAMES)]):
+            classes.append(f"{kind}:decoy-named-like-imported-module")
+    for enc in ("latin-1", "cp1252", "bom"):
+        if tree_layout and any(_has(ch, lambda n, e=enc: n.get("enc") == e) for ch in pkg0["top"].get("ch", ())):
+            classes.append(f"{kind}:source-encoding:{enc}")
     if any(p.get("stubs_pkg") for p in case["pkgs"]) or _has(pkg0["top"], lambda n: n.get("stub")):
         classes.append(f"{kind}:has-stubs")
     if len(case["pkgs"]) > 1:
